@@ -151,7 +151,42 @@ def _fix_expected_exception_is_not_a_kill():
     setattr(cls, MANGLE + "compute_mutation_summary", staticmethod(compute))
 
 
+def _break_filter_ignores_errors_when_failed():
+    """The filtering pass deletes the errored assertions of a statement only when no assertion of that statement failed."""
+    import pynguin.assertion.assertiongenerator as ag
+
+    from pynguin.utils.orderedset import OrderedSet
+
+    def remove_non_holding(test, result):
+        for idx, statement in enumerate(test.statements()):
+            pos_to_key = dict(enumerate(statement.assertions))
+            to_delete = OrderedSet()
+            if idx in result.assertion_verification_trace.failed:
+                to_delete.update(result.assertion_verification_trace.failed[idx])
+            elif idx in result.assertion_verification_trace.error:
+                to_delete.update(result.assertion_verification_trace.error[idx])
+            for pos in sorted(to_delete, reverse=True):
+                statement.assertions.remove(pos_to_key[pos])
+
+    setattr(ag.AssertionGenerator, "_AssertionGenerator__remove_non_holding_assertions", staticmethod(remove_non_holding))
+
+
+def _break_filter_ignores_errors():
+    """The filtering pass only deletes failed assertions, errored ones stay."""
+    import pynguin.assertion.assertiongenerator as ag
+
+    def remove_non_holding(test, result):
+        for idx, statement in enumerate(test.statements()):
+            pos_to_key = dict(enumerate(statement.assertions))
+            for pos in sorted(result.assertion_verification_trace.failed.get(idx, ()), reverse=True):
+                statement.assertions.remove(pos_to_key[pos])
+
+    setattr(ag.AssertionGenerator, "_AssertionGenerator__remove_non_holding_assertions", staticmethod(remove_non_holding))
+
+
 BREAKS = {
+    "filter-ignores-errors-when-failed": _break_filter_ignores_errors_when_failed,
+    "filter-ignores-errors": _break_filter_ignores_errors,
     "PROPOSED_FIX_expected-exception-is-not-a-kill": _fix_expected_exception_is_not_a_kill,
     "greedy-drops-needed": _break_greedy_drops_needed,
     "index-shift": _break_index_shift,
@@ -331,6 +366,49 @@ def install(events, spec):
 
     setattr(cls, MANGLE + "report_mutation_summary", report_summary)
 
+    # ---- the filtering pass: what did the filtering execution report per statement? -------------------
+    FMANGLE = "_AssertionGenerator__remove_non_holding_assertions"
+    orig_filter = getattr(ag.AssertionGenerator, FMANGLE)
+    filt = {"calls": 0, "stmt:failed+error": 0, "stmt:failed-only": 0, "stmt:error-only": 0, "stmt:all-hold": 0,
+            "test:failed-only-and-error-only-statements": 0, "test:mixed-statement-plus-others": 0, "removed": 0, "timeouts": 0,
+            "stmt:failed+error+holding": 0}
+
+    def remove_non_holding(test, result):
+        calls["remove_non_holding"] = calls.get("remove_non_holding", 0) + 1
+        filt["calls"] += 1
+        vt = result.assertion_verification_trace
+        kinds = set()
+        if result.timeout:
+            filt["timeouts"] += 1
+        before = sum(len(st.assertions) for st in test.statements())
+        for idx, st in enumerate(test.statements()):
+            if not st.assertions:
+                continue
+            f = set(vt.failed.get(idx, ())) if idx in vt.failed else set()
+            e = set(vt.error.get(idx, ())) if idx in vt.error else set()
+            if f and e:
+                k = "failed+error"
+                if len(st.assertions) > len(f | e):
+                    filt["stmt:failed+error+holding"] += 1
+            elif f:
+                k = "failed-only"
+            elif e:
+                k = "error-only"
+            else:
+                k = "all-hold"
+            filt["stmt:" + k] += 1
+            kinds.add(k)
+        if {"failed-only", "error-only"} <= kinds:
+            filt["test:failed-only-and-error-only-statements"] += 1
+        if "failed+error" in kinds and len(kinds - {"all-hold"}) > 1:
+            filt["test:mixed-statement-plus-others"] += 1
+        ret = orig_filter(test, result)
+        filt["removed"] += before - sum(len(st.assertions) for st in test.statements())
+        return ret
+
+    setattr(ag.AssertionGenerator, FMANGLE, staticmethod(remove_non_holding))
+    install.filt = filt
+
     # ---- re-execution of the final assertions on the unmutated module -------------------------------
     orig_gen = gen._generate_assertions
 
@@ -354,7 +432,7 @@ def install(events, spec):
                 rec["harness_error"] = f"{type(e).__name__}: {e}"
             tests.append(rec)
         events.append({"ev": "reexec", "assertion_generation": config.configuration.test_case_output.assertion_generation.name,
-                       "tests": tests})
+                       "tests": tests, "filter": dict(filt)})
         return ret
 
     gen._generate_assertions = generate_assertions
